@@ -10,7 +10,7 @@ from symv.dense import describe, embed, index_sig, is_array, labels_of, phases_o
 
 META = {
     "level": "exploration",
-    "level_text": "Each monitored fermionic transpose / tensordot (fused, blockwise, auto) / @ / trace / einsum call is compared element for element, exactly, with an independent dense Z2-graded tensor model (Koszul signs from per-element parity vectors, bra-ket evaluation rule, label factors). Thorough tier enumerates every Z2 structure with <=3 indices per operand (all charge subsets, dualness patterns, parities, permutations, contracted-axis choices and orders) and samples U1 structures; random stream covers 5 symmetries, sparsity, pending signs, labels. Exploration; exhaustive only inside the stated Z2 box. Later additions: operands carrying several labels incl. nested conjugate pairs, tuple / string labels, 5-8 contracted legs, thousands of sectors on both operands, left operands of >= 2**22 dense elements, option phase=False judged as the plain permutation. Round 9: user-defined symmetries, incl. one that grades the labels of U1U1 differently, in the same process as U1U1.",
+    "level_text": "Each monitored fermionic transpose / tensordot (fused, blockwise, auto) / @ / trace / einsum call is compared element for element, exactly, with an independent dense Z2-graded tensor model (Koszul signs from per-element parity vectors, bra-ket evaluation rule, label factors). Thorough tier enumerates every Z2 structure with <=3 indices per operand (all charge subsets, dualness patterns, parities, permutations, contracted-axis choices and orders) and samples U1 structures; random stream covers 5 symmetries, sparsity, pending signs, labels. Exploration; exhaustive only inside the stated Z2 box. Later additions: operands carrying several labels incl. nested conjugate pairs, tuple / string labels, 5-8 contracted legs, thousands of sectors on both operands, left operands of >= 2**22 dense elements, option phase=False judged as the plain permutation. Round 9: user-defined symmetries, incl. one that grades the labels of U1U1 differently, in the same process as U1U1. Round 10: 12-26-leg arrays with 2-6 stored sectors (up to 26 odd charges in a sector), transposition judged sector by sector.",
     "technique": "runtime monitoring: reference-model oracle (independent dense graded-tensor calculation), bounded-exhaustive + random workloads",
     "rule": (
         "one evaluation = one fermionic library call compared with the GradedDense model. Streams: 'enum-transpose' / 'enum-contract' "
